@@ -16,71 +16,6 @@ EXTENDS VariantOps, Json, TLC
 VARIABLE l
 Trace == ndJsonDeserialize("trace.ndjson")
 F(ok, name) == IF ok THEN "" ELSE name \o "; "
-Small(x) == x >= -8388608 /\ x <= 8388608      \* what the recorder reports as an exactly modelled number (|value| <= 2^20, times 8)
-
-ArithT == [Add |-> Numeric \cup {"TimeSpan", "String"}, Sub |-> Numeric \cup {"TimeSpan", "DateTime"},
-           Mul |-> Numeric, Div |-> Numeric, Mod |-> Integral, Pow |-> Numeric,
-           And |-> Integral \cup {"Boolean"}, Or |-> Integral \cup {"Boolean"}, Xor |-> Integral \cup {"Boolean"},
-           Lsh |-> Integral, Rsh |-> Integral]
-EqT  == Numeric \cup {"String", "Boolean", "TimeSpan", "DateTime", "Object"}
-OrdT == Numeric \cup {"String", "TimeSpan", "DateTime"}
-CmpNames == {"Equal", "NotEqual", "More", "Less", "MoreEqual", "LessEqual"}
-Supported(name, t) == IF name \in {"Equal", "NotEqual"} THEN t \in EqT
-                      ELSE IF name \in CmpNames THEN t \in OrdT ELSE t \in ArithT[name]
-ConvTarget(name, t1) == IF name \in {"Lsh", "Rsh"} THEN "Integer" ELSE t1
-ResultType(name, t1) == IF name \in CmpNames THEN "Boolean"
-                        ELSE IF name = "Sub" /\ t1 = "DateTime" THEN "TimeSpan" ELSE t1
-
-\* exact result (times 8, or 0/1 for booleans) of a binary operator on exactly modelled operands: <<TRUE, x>> / <<FALSE, 0>>
-ExactBin(name, a, b) ==
-  LET cb == ConvNum8(b, ConvTarget(name, a.t))
-      x8 == Num8(a)   y8 == IF a.t = "Boolean" THEN (IF cb[2] # 0 THEN 8 ELSE 0) ELSE cb[2]   \* a second operand converted to Boolean is 0 or 1
-      x  == x8 \div 8  y == y8 \div 8      \* only used for integral types (x8, y8 multiples of 8)
-      int == a.t \in Integral \cup {"TimeSpan", "DateTime"}
-      yes(v) == IF Small(v) THEN <<TRUE, v>> ELSE <<FALSE, 0>>
-      no == <<FALSE, 0>>
-      ms == Abs(x8) <= 16384 /\ Abs(y8) <= 16384
-  IN IF ~Exact(a) \/ ~cb[1] \/ (a.t = "Boolean" /\ name \notin ({"And", "Or", "Xor"} \cup CmpNames)) THEN no
-     ELSE CASE name = "Add" -> yes(x8 + y8)
-            [] name = "Sub" -> (IF a.t = "DateTime" THEN (IF Abs(x - y) < 1000000 THEN yes(8 * 1000 * (x - y)) ELSE no) ELSE yes(x8 - y8))
-            [] name = "Mul" -> (IF ~ms THEN no ELSE IF int THEN yes(8 * x * y) ELSE IF (x8 * y8) % 8 = 0 THEN yes((x8 * y8) \div 8) ELSE no)
-            [] name = "Div" -> (IF y8 = 0 \/ ~ms THEN no ELSE IF int THEN yes(8 * TruncDiv(x, y))
-                                ELSE IF (x8 * 8) % Abs(y8) = 0 THEN yes(TruncDiv(x8 * 8, y8)) ELSE no)
-            [] name = "Mod" -> (IF y8 = 0 \/ ~int THEN no ELSE yes(8 * TruncMod(x, y)))
-            [] name = "Pow" -> (IF x8 % 8 = 0 /\ Num8(b) % 8 = 0 /\ Abs(x) <= 10 /\ y >= 0 /\ y <= 8 THEN yes(8 * IPow(x, y)) ELSE no)
-            [] name \in {"And", "Or", "Xor"} ->
-                 (IF a.t = "Boolean"
-                  THEN LET p == a.n = 1  q == y8 # 0 IN
-                       yes(IF (CASE name = "And" -> p /\ q [] name = "Or" -> p \/ q [] OTHER -> p # q) THEN 1 ELSE 0)
-                  ELSE IF int /\ x >= 0 /\ y >= 0 THEN yes(8 * BitOp(IF name = "And" THEN "and" ELSE IF name = "Or" THEN "or" ELSE "xor", x, y)) ELSE no)
-            [] name = "Lsh" -> (IF x >= 0 /\ x <= 1024 /\ y >= 0 /\ y <= 16 THEN yes(8 * x * Pow2(y)) ELSE no)
-            [] name = "Rsh" -> (IF x >= 0 /\ y >= 0 /\ y <= 30 THEN yes(8 * (x \div Pow2(y))) ELSE no)
-            [] name = "Equal" -> yes(IF x8 = y8 THEN 1 ELSE 0)
-            [] name = "NotEqual" -> yes(IF x8 # y8 THEN 1 ELSE 0)
-            [] name = "More" -> yes(IF x8 > y8 THEN 1 ELSE 0)
-            [] name = "Less" -> yes(IF x8 < y8 THEN 1 ELSE 0)
-            [] name = "MoreEqual" -> yes(IF x8 >= y8 THEN 1 ELSE 0)
-            [] name = "LessEqual" -> yes(IF x8 <= y8 THEN 1 ELSE 0)
-            [] OTHER -> no
-
-\* comparison of strings: the second operand rendered as text
-StrCmp(name, a, b) ==
-  LET x == a.c  y == b.c IN
-  CASE name = "Equal" -> x = y [] name = "NotEqual" -> x # y [] name = "Less" -> SeqLess(x, y)
-    [] name = "More" -> SeqLess(y, x) [] name = "LessEqual" -> ~SeqLess(y, x) [] OTHER -> ~SeqLess(x, y)
-
-\* is the operation undefined for these operands although the types are supported? (needs an exactly modelled 2nd operand)
-Undefined(name, a, b) ==
-  LET cb == ConvNum8(b, ConvTarget(name, a.t)) IN
-  /\ cb[1]
-  /\ \/ name \in {"Div", "Mod"} /\ a.t \in Integral /\ cb[2] = 0
-     \/ name \in {"Lsh", "Rsh"} /\ cb[2] < 0
-\* the converted second operand is outside the model (e.g. a string): whether the operation is defined cannot be told
-Unknowable(name, a, b) ==
-  /\ ~ConvNum8(b, ConvTarget(name, a.t))[1]
-  /\ (name \in {"Lsh", "Rsh"} \/ (name \in {"Div", "Mod"} /\ a.t \in Integral))
-ShiftTooFar(name, a, b) == name \in {"Lsh", "Rsh"} /\ (~ConvNum8(b, "Integer")[1] \/ ConvNum8(b, "Integer")[2] >= 8 * 31)
-
 BinFails(e) ==
   LET a == e.a  b == e.b  n == e.name IN
   IF e.outcome = "panic" THEN "the operator crashed instead of returning a value or an error; "
